@@ -18,9 +18,11 @@ assignment to `b.off` in the Go code is guarded so that the assigned value is no
 Go subtractions whose result could be negative in Go are computed in `Int`.
 `Seek` adds a caller-supplied int64 to `b.off` / `len(b.buf)`; Go wraps on overflow, the model
 wraps the same way (`wrap64`).  `Grow(n)` / `Next(n)` take arbitrary `Int`s; the negative cases are
-explicit `panic` outcomes.  `ErrTooLarge` is an explicit panic outcome of `grow`; a failing
-allocation `make([]byte, 2*c+n)` for a size that passes the `c > maxInt-c-n` test is NOT modelled
-(assumption: the allocator succeeds).
+explicit `panic` outcomes.  `ErrTooLarge` is an explicit panic outcome of `grow`, raised either by the
+overflow test `c > maxInt-c-n` or by `makeSlice`, whose `make([]byte, 2*c+n)` panics (`len out of range`,
+recovered and re-panicked as ErrTooLarge) when the size exceeds the runtime's `maxAlloc` = 2^48 bytes
+(linux/amd64, arm64: 48 address bits; a trusted platform constant).  An allocation of at most `maxAlloc`
+bytes is assumed to succeed (an out-of-memory condition is a fatal runtime error, not a panic).
 
 Constants come from the regenerated facts: `iox_smallBufferSize`, `iox_maxInt` and the two literals `2`
 of `grow` (`c/2`, `2*c`).
@@ -33,6 +35,8 @@ abbrev Byte := Nat
 def smallBufferSize : Nat := Got.Facts.iox_smallBufferSize.toNat
 /-- `const maxInt = int(^uint(0) >> 1)` -/
 def maxInt : Int := Got.Facts.iox_maxInt
+/-- the Go runtime's `maxAlloc` on 64-bit linux: `make([]byte, n)` panics for `n > maxAlloc` -/
+def maxAlloc : Int := 2 ^ 48
 /-- the `2` of `n <= c/2-m` (4th integer literal of `grow`) -/
 def slideDiv : Nat := (Got.Facts.lits_iox_Buffer_grow.getD 3 0).toNat
 /-- the `2` of `makeSlice(2*c + n)` (5th integer literal of `grow`) -/
@@ -134,6 +138,8 @@ def grow (b : Buffer) (n : Nat) : GrowRes :=
         -- copy(b.buf, b.buf[b.off:]) ; b.off = 0 ; b.buf = b.buf[:m+n]
         .ok { b with buf := ((copyAt b.buf 0 (b.buf.drop b.off)).1.take m) ++ List.replicate n 0, off := 0 } m
       else if (c : Int) > maxInt - c - n then                -- else if c > maxInt-c-n { panic(ErrTooLarge) }
+        .tooLarge b
+      else if ((growMul * c + n : Nat) : Int) > maxAlloc then -- makeSlice: make panics, recover, panic(ErrTooLarge)
         .tooLarge b
       else
         -- buf := makeSlice(2*c + n) ; copy(buf, b.buf[b.off:]) ; b.buf = buf ; b.off = 0 ; b.buf = b.buf[:m+n]
